@@ -44,8 +44,8 @@ CHECKS = {
          "Every step on the relay chain of scripted bidirectional NFT/MT/mock traffic under 8 rule sets (incl. a destination the relay chain does not know) is judged: re-commit unchanged iff whitelisted and destination known, else recorded error ack and the destination never accepts; acks (success and error) stored unchanged and accepted at every hop back; no callback (H1) and no token-store change on the relay chain; allow-all scenarios are re-run on a twin network over a direct route and the final token state of both ends compared.",
          "Honest relayer in random order; twin comparison only for scenarios in which every packet is whitelisted."),
  "C15": ("fault_enumeration", "4/C15", "runtime monitoring: access-control matrix enumerated against real chains, effect decided by KV diff",
-         "{create, upgrade, register-relayer, set-rules} x 6 ways of presenting an authority (gov execution, router with user/empty authority, user-signed naming itself / forging gov / relayer) x payloads (new/existing name, same/other client type, garbage Any) and update-client x {relayer of this chain, of another chain, arbitrary, replaced} in registries of 0-3 clients; refused requests must leave an empty diff, authorised ones must take the stated effect, create never overwrites, upgrade never changes type.",
-         "Legacy v1beta1 proposal handlers are only reachable through gov and are not driven separately."),
+         "{create, upgrade, register-relayer, set-rules} x 7 ways of presenting an authority (gov execution, the same payload as a legacy v1beta1 proposal content through the TIBC proposal handler, router with user/empty authority, user-signed naming itself / forging gov / relayer) x payloads (new/existing name, same/other client type, garbage Any) and update-client x {relayer of this chain, of another chain, arbitrary, replaced} in registries of 0-3 clients; refused requests must leave an empty diff, authorised ones must take the stated effect, create never overwrites (also over an expired client), upgrade never changes type; proposals rolled back by a failing last message must leave no key, no authorised relayer and no routing rule behind.",
+         "The legacy handlers are called the way gov's legacy router calls them (simapp does not install that router); gov's own authority check in front of them is SDK code and is not driven."),
  "C07": ("exploration", "4/C07", "runtime monitoring: differential oracle (reference light-client rule on the generator's knowledge vs the real 07-tendermint client in a real store)",
          "Synthetic chains really signed by chosen validator subsets (incl. subsets exactly on the 1/3 and 2/3 thresholds, skewed powers, set changes) against clients with several stored states; target/trusted heights, supplied trusted sets, header and block times at / 1ns around every boundary, other chain id / revision, swapped validator sets; verdict, stored consensus state, latest height and store-unchanged-on-rejection are compared.",
          "Trust levels from {1/3, 2/5, 1/2, 2/3}; non-signers are absent votes (invalid signatures are not generated); pruning of expired states is not judged."),
